@@ -69,7 +69,21 @@ async def check_pool(ctx, case):
     ctx.count("pool_cases")
     ctx.count("parent:" + parent)
     status, offered, flag, hint = expected_for(pool, asg, parent)
-    kind_of_input = "absent" if pool["input"] is None else ("empty" if pool["input"] == "" else ("offered" if pool["input"] in offered else ("pool-member-not-offered" if any(e["q"] == pool["input"] for e in pool["entries"]) else ("fragment-of-offered" if pool["input"] in ", ".join(offered) else "foreign"))))
+    inp = pool["input"]
+    if inp is None:
+        kind_of_input = "absent"
+    elif inp == "":
+        kind_of_input = "empty"
+    elif inp != inp.strip():
+        kind_of_input = "blank-or-padded"
+    elif inp in offered:
+        kind_of_input = "offered"
+    elif any(e["q"] == inp for e in pool["entries"]):
+        kind_of_input = "pool-member-not-offered"
+    elif inp in ", ".join(offered):
+        kind_of_input = "fragment-of-offered"
+    else:
+        kind_of_input = "foreign"
     ctx.count("input:" + kind_of_input)
     ctx.count("offered_none" if not offered and parent != "IS_FORBIDDEN" else "offered_some")
     world = E.World("c17", rc=asg, fc={k: random.Random(case["schedule_seed"] + int(k)).random() < 0.5 for k in POOLS.fc})
@@ -154,6 +168,8 @@ async def run(ctx):
             if offered:
                 # values that are no qualifier but occur INSIDE the (joined) list of offered qualifiers
                 inputs += [offered[0][:-1], offered[-1][1:], offered[0][-2:], ", ", ","]
+                # an offered qualifier with whitespace around it is another value (nobody said input is trimmed), as is blank input
+                inputs += [" " + offered[0], offered[-1] + " ", offered[0] + "\n", " ", "\t"]
                 if len(offered) >= 2:
                     inputs.append(offered[0] + ", " + offered[1])
             for inp in (inputs if not ctx.quick else rng.sample(inputs, 4)):
